@@ -63,6 +63,30 @@ CHECKS = {
    technique='enumerated argument grid and configuration box with return-code, sanitizer and LeakSanitizer oracles',
    text='Every entry point x argument position x bad value (single, NULL-combined, with dead descriptor) must return the documented failure and leave nothing allocated; every configuration in the box is either refused or survives a complete encode/decode/reconstruct/query/destroy cycle without sanitizer reports.',
    note='encode_cleanup/decode_cleanup with NULL buffers on a valid descriptor are allowed to return 0 (the suite pins that); a time budget hit is inconclusive.'),
+ 'C14': dict(level='exploration', design='5/C14', engine='rapidcheck (history interpreter)+bounded exhaustive',
+   technique='model-based testing of create/use/destroy histories against a set model with a behavioural registry scan after every step; bounded-exhaustive sequences',
+   text='Generated histories (incl. counter presets next to INT_MAX) and all sequences over a 12-symbol alphabet to depth 5/6; after every step the library registry, probed through size queries on every descriptor ever seen and its neighbours, must equal the model and every live instance must round-trip.',
+   note='Counter wrap reached by presetting the exported next_backend_desc; registry observed only through public calls.'),
+ 'C15': dict(level='exploration', design='5/C15', engine='rapidcheck (history interpreter)',
+   technique='model-based histories with inputs on read-only pages flush against guard pages; encode output compared with a pure reference function',
+   text='Any write to an input or read outside it faults (PROT_READ / PROT_NONE pages, start- and end-flush, aligned and unaligned); inputs compared with private copies afterwards; every encode output in every history, instance and thread equals the independent serializer, hence is history independent.',
+   note='Page-granular: with 16-byte aligned buffers whose length is not a multiple of 16 an over-read of <16 bytes is only seen in the unaligned placements.'),
+ 'C16': dict(level='exploration', design='5/C16', engine='rapidcheck (history interpreter)+sweep',
+   technique='stateful random API histories under AddressSanitizer with a LeakSanitizer check after each history',
+   text='Histories up to 300 steps mixing successful calls + cleanup with every documented failure path; ASan reports double free / use after free at the faulting step, LSan must report nothing after all instances are destroyed; plus a cleanup-pair check for every shape.',
+   note='OOM-only error paths are not injected.'),
+ 'C17': dict(level='fault_enumeration', design='5/C17', engine='fault enumeration+rapidcheck',
+   technique='fault injection through the exported back-end operation tables: every single fault position enumerated, random fault sets generated',
+   text='For a scripted workload on five back ends every call position of init/encode/decode/reconstruct/fragments_needed is made to fail in three ways, one run each (exhaustive for single faults); random workloads with random fault sets on top. Public rc<0, no cleanup owed (LSan), retry exact, registry usable, plugin reference returned.',
+   note='Faults are return values of the back end operations (incl. work-then-fail); faults inside libc (malloc) are not injected.'),
+ 'C18': dict(level='exploration', design='5/C18', engine='TSan stress + controlled scheduler (guarded hooks)',
+   technique='generated multi-threaded workloads under ThreadSanitizer; enumerated and random schedules at instrumented yield points under AddressSanitizer',
+   text='Tier 1: 2..16 threads with own and shared instances under TSan - any data race on the paths exercised is reported independent of timing. Tier 2: worker threads run one at a time and switch only at the guarded yield points (registry traversal/insert/remove, descriptor allocation, GF table init/deinit, lock try/unlock); all schedules with <=2 preemptions for fixed 2-thread workloads, random schedules for 2-3 threads. Evidence about the schedules explored, never absence of races.',
+   note='Tier 2 sees interleavings at hook granularity only; tier 1 only races on exercised paths. Hooks: guard LIBERASURECODE_VERIF, inert unless a callback is installed.'),
+ 'C19': dict(level='exploration', design='5/C19', engine='rapidcheck+sweep+fault injection',
+   technique='property-based and exhaustive small-shape testing of the ISA-L adapters against a clean-room primitive library, with injected inversion failures',
+   text='Both adapters over every erasure set for n<=8/12 and generated cases to n=32, two table encodings of the stand-in, searched singular first-k sets for the non-MDS Vandermonde shapes, injected gf_invert_matrix failures (error, no leak, retry exact), fragments_needed with the C06 oracle.',
+   note='Relative to one clean-room model of the documented ISA-L primitives (refisal); Intel SIMD kernels are out of reach offline.'),
  'C20': dict(level='exploration', design='5/C20', engine='rapidcheck',
    technique='property-based testing with fault-injected fragments and a validity-aware exact-or-error oracle',
    text='Stripes with damaged members (payload bit flips, re-sealed foreign header fields, unsealed header damage) decoded with force=1; result must be the original when the valid fragments suffice within tolerance, an error when they cannot determine the data, never other bytes.',
